@@ -35,7 +35,7 @@ type thread struct {
 	state   threadState
 	lock    VLoc // tsWantLock
 	wg      VLoc // tsWgWait
-	sinceEp int  // tsCondWait: epoch at which it started waiting
+	sinceEp int  // tsCondWait: release count of the lock when it started waiting
 	resume  chan struct{}
 	outcome *Outcome // set when the thread finished abnormally (stuck etc.)
 	result  Val
@@ -48,6 +48,9 @@ type sched struct {
 	threads []*thread
 	yield   chan *thread
 	epoch   int // incremented every time a thread is resumed
+	// releases counts lock.release operations per lock cell: a condWait-er re-checks
+	// its condition only after somebody has been inside a critical section of that lock
+	releases map[*Block]int
 	prefix  []int
 	pos     int
 	trace   []choicePoint
@@ -123,6 +126,9 @@ func (in *Interp) lockRelease(l VLoc) {
 		stuck("lock.release of a lock that is not held")
 	}
 	*c = VBool(false)
+	if in.sched != nil {
+		in.sched.releases[l.B]++
+	}
 }
 
 // condBlock is the middle of condWait: the lock has been released; GooseLang
@@ -134,7 +140,12 @@ func (in *Interp) condBlock(c VLoc, timeout bool) {
 	}
 	t := in.sched.cur
 	t.state = tsCondWait
-	t.sinceEp = in.sched.epoch
+	// the condition variable's lock: the waiter becomes runnable again once another
+	// thread has released it (the awaited condition can only change under that lock);
+	// its own release just before does not count
+	lk := in.asLoc(*in.cell(c, 0), "condWait")
+	t.lock = lk
+	t.sinceEp = in.sched.releases[lk.B]
 	in.sched.park(t)
 }
 
@@ -209,7 +220,7 @@ func (s *sched) runnable() []*thread {
 				out = append(out, t)
 			}
 		case tsCondWait:
-			if s.epoch > t.sinceEp {
+			if s.releases[t.lock.B] > t.sinceEp {
 				out = append(out, t)
 			}
 		case tsWgWait:
@@ -225,7 +236,7 @@ func (s *sched) runnable() []*thread {
 // prefix (choices beyond the prefix default to 0).
 func RunThreaded(prog *Program, name string, fuel int64, prefix []int, maxSteps int) ThreadedOutcome {
 	in := NewInterp(prog, fuel)
-	s := &sched{in: in, yield: make(chan *thread), prefix: prefix, maxSteps: maxSteps}
+	s := &sched{in: in, yield: make(chan *thread), prefix: prefix, maxSteps: maxSteps, releases: map[*Block]int{}}
 	in.sched = s
 	main := &thread{id: 0, resume: make(chan struct{})}
 	s.threads = []*thread{main}
